@@ -25,14 +25,15 @@ ENGINE = 'E3'
 TECHNIQUE = 'model checking: deviation-bounded exhaustive fault enumeration - an exception injected at every call made by the entry point (every k), for every initial state of the touched variables and every pipeline variant'
 LEVEL_TEXT = ('for window_score and template_input, every configuration (initial set/unset state of the touched variables x pipeline variant) is run fault-free and then once per call point k '
               'with an exception injected at exactly the k-th call made from the module under test (Python and C calls, environment look-ups included); os.environ is compared as a whole before/after every run')
-LEVEL_NOTE = ('one injected fault per run (bound = 1 deviation) at call granularity; heavy collaborators (readspec, solvers, plotting, scoring) are replaced by light stubs so the fault-free run completes, '
+LEVEL_NOTE = ('bound = 2 deviations at call granularity: every single fault k, and for every first fault k1 every call made after it along the same execution (in handlers while it propagates, or in the continuation when it is swallowed) as a second fault k2 - on the unchanged tree no call follows a fault, so the bound-2 layer adds 0 runs there and is reported as fault_points_after_first_fault; heavy collaborators (readspec, solvers, plotting, scoring) are replaced by light stubs so the fault-free run completes, '
               'the functions under test run unmodified; writes to os.environ themselves are assumed not to fail; trusted: sys.setprofile event delivery')
 RULE = ('two-call histories on one parameter file (first call succeeds or fails naturally, environment changed in between, second call swept with every fault point; with and without the dump file the first call wrote being what the second call loads); natural failures include a parameter file whose run2d/run1d value cannot be put in the environment (NUL byte: the assignment itself raises between the first and the second variable); initial states per variable: unset, set to another value, set but empty, set to the value the parameter file asks for; the optional binsz keyword absent, well-formed, malformed; configurations = full product of initial environment states x variants; per configuration k = 0 (no fault), natural failures, and k = 1..N for every call event whose caller frame '
         'belongs to the module under test. Non-trivial: a run that ends by an exception while the environment at the moment of the fault differs from the initial one (something had to be restored). '
         'Distinct: (entry point, configuration, k, exception class).')
 ASSUMPTIONS = ['assignments/deletions on os.environ are not injected fault points (if restoring cannot be done, nothing can restore); the data-driven failure of the initial assignment (NUL byte in the value) is enumerated as a natural failure instead; look-ups in os.environ are not fault points either (their answer is determined by the enumerated initial state); pure str/list/dict methods and len/isinstance/... are not fault points; calls between functions of the module under test are not fault points themselves (their outgoing calls are)',
                'collaborators are stubs; faults inside a collaborator after a partial side effect of its own are outside the bound',
-               'exception classes injected: a RuntimeError subclass and KeyboardInterrupt (quick) plus KeyError, OSError, ValueError, SystemExit (thorough)']
+               'exception classes injected: a RuntimeError subclass and KeyboardInterrupt (quick) plus KeyError, OSError, ValueError, SystemExit (thorough); second faults are always the RuntimeError subclass, first faults of the bound-2 layer: RuntimeError subclass (quick, plain configurations) plus OSError and KeyboardInterrupt (thorough, all configurations)',
+               'bound-2 layer: the profiler is re-armed by a trace function on the exception event of the first fault (frames of the module under test only, no line events); calls made inside the callee that received the first fault are not second fault points']
 MIN_OUTCOMES = 3
 
 
@@ -48,15 +49,32 @@ EXC = {'InjectedFault': InjectedFault, 'KeyError': KeyError, 'OSError': OSError,
 
 # ------------------------------------------------------------------ fault injector
 class Injector:
-    def __init__(self, files, k, exc, env0):
+    def __init__(self, files, k, exc, env0, k2=None):
         self.files = files
         self.k = k
+        self.k2 = k2          # bound 2: a second fault at the k2-th call (k2 > k), counted along the same execution
         self.exc = exc
         self.n = 0
         self.fired = None
+        self.fired2 = None
         self.env0 = env0
         self.dirty = False
         self.log = []
+
+    # bound 2 only: an exception raised from a profile function unsets the profiler (CPython), so the calls made after the
+    # first fault - in handlers while it propagates, or in the continuation when the code under test swallows it - would be
+    # invisible.  A trace function restricted to the frames of the module under test (no line events) re-arms the profiler
+    # at the 'exception' event the first fault produces in the calling frame.
+    def gtrace(self, frame, event, arg):
+        if frame.f_code.co_filename in self.files:
+            frame.f_trace_lines = False
+            return self.ltrace
+        return None
+
+    def ltrace(self, frame, event, arg):
+        if event == 'exception' and self.fired is not None and self.fired2 is None and sys.getprofile() is None:
+            sys.setprofile(self)
+        return self.ltrace
 
     def __call__(self, frame, event, arg):
         if event == 'call':
@@ -93,12 +111,20 @@ class Injector:
             self.fired = '%s:%d:%s' % (caller.f_code.co_name, caller.f_lineno, name)
             self.dirty = dict(os.environ) != self.env0
             raise self.exc('injected fault at call #%d (%s)' % (self.k, self.fired))
+        if self.k2 is not None and self.n == self.k2 and self.fired is not None:
+            sys.setprofile(None)
+            self.fired2 = '%s:%d:%s' % (caller.f_code.co_name, caller.f_lineno, name)
+            self.dirty = self.dirty or dict(os.environ) != self.env0
+            raise InjectedFault('second injected fault at call #%d (%s) after #%d (%s)' % (self.k2, self.fired2, self.k, self.fired))
 
 
-def run_with_fault(fn, files, k, exc, env0):
-    """Run fn() with a fault at call k (None = none). Returns (result label, injector)."""
-    inj = Injector(files, k, exc, env0)
+def run_with_fault(fn, files, k, exc, env0, k2=None):
+    """Run fn() with a fault at call k (None = none) and, when k2 is given (0 = only count the calls made after the first
+    fault), a second one at call k2. Returns (result label, injector)."""
+    inj = Injector(files, k, exc, env0, k2=k2)
     gc.disable()          # collector-triggered callbacks must not appear as calls of the function under test
+    if k2 is not None:
+        sys.settrace(inj.gtrace)
     sys.setprofile(inj)
     try:
         fn()
@@ -107,6 +133,8 @@ def run_with_fault(fn, files, k, exc, env0):
         res = 'raised:' + type(e).__name__
     finally:
         sys.setprofile(None)
+        if k2 is not None:
+            sys.settrace(None)
         gc.enable()
     return res, inj
 
@@ -379,7 +407,7 @@ def files_for(cfg):
     return {W.__file__} if cfg['ep'] == 'window_score' else {S.__file__}
 
 
-def one_run(cfg, k, excname, d):
+def one_run(cfg, k, excname, d, k2=None):
     """Returns (result, injector, violations)."""
     _save_module_state()
     env_outer = dict(os.environ)
@@ -408,14 +436,14 @@ def one_run(cfg, k, excname, d):
         else:
             fn = ws_setup(d, cfg) if cfg['ep'] == 'window_score' else ti_setup(d, cfg)
         env0 = dict(os.environ)
-        res, inj = run_with_fault(fn, files_for(cfg), k, EXC[excname], env0)
+        res, inj = run_with_fault(fn, files_for(cfg), k, EXC[excname], env0, k2=k2)
         env1 = dict(os.environ)
         bad = []
         if env1 != env0:
-            where = 'success-path' if res == 'returned' else ('injected' if inj.fired else 'natural-failure')
+            where = 'success-path' if res == 'returned' else (('injected2' if inj.fired2 else 'injected') if inj.fired else 'natural-failure')
             touched = sorted(set(x.split(':')[0] for x in env_diff(env0, env1)))
             bad.append(('%s:env-not-restored:%s:%s' % (cfg['ep'], where, '+'.join(touched)),
-                        'result %s; fault at %s; %s' % (res, inj.fired, '; '.join(env_diff(env0, env1)))))
+                        'result %s; fault at %s%s; %s' % (res, inj.fired, (' then ' + inj.fired2) if inj.fired2 else '', '; '.join(env_diff(env0, env1)))))
         return res, inj, bad
     finally:
         _restore_module_state()
@@ -433,9 +461,11 @@ def tasks(tier):
             plain = c['ep'] == 'window_score' or (c.get('object') == 'gal' and c.get('defect') == 'none' and not c.get('flux')
                                                   and c.get('dump') == 'absent' and not c.get('first') and not c.get('natural'))
             excs = ['InjectedFault', 'KeyboardInterrupt'] if plain else ['InjectedFault']
+            excs2 = ['InjectedFault'] if plain else []
         else:
             excs = ['InjectedFault', 'KeyError', 'OSError', 'ValueError', 'KeyboardInterrupt', 'SystemExit']
-        out.append({'cfg': c, 'excs': excs})
+            excs2 = ['InjectedFault', 'OSError', 'KeyboardInterrupt']
+        out.append({'cfg': c, 'excs': excs, 'excs2': excs2})
     return out
 
 
@@ -470,6 +500,26 @@ def run_task(task):
                     acc.case((ckey, k, excname), nontrivial, 'k:%s:%s:%s' % (cfg['ep'], 'dirty' if inj.dirty else 'clean', 'raised' if res != 'returned' else 'swallowed'))
                 for sig, msg in bad:
                     acc.violation(sig, {'cfg': cfg, 'k': k, 'exc': excname}, msg)
+        # bound 2: for every first fault k1, every call made AFTER it along the same execution (handlers reached while it
+        # propagates, or the whole continuation when the code under test swallows it) is a second fault point k2
+        for excname in task.get('excs2', ()):
+            for k in range(1, n + 1):
+                res1, inj1, bad1 = one_run(cfg, k, excname, d, k2=0)
+                if inj1.fired is None:
+                    continue
+                for sig, msg in bad1:       # same run as in the bound-1 sweep, now with the tracer attached
+                    acc.violation(sig, {'cfg': cfg, 'k': k, 'exc': excname, 'k2': 0}, msg)
+                acc.extra['fault_points_after_first_fault'] += inj1.n - k
+                for k2 in range(k + 1, inj1.n + 1):
+                    res, inj, bad = one_run(cfg, k, excname, d, k2=k2)
+                    if inj.fired2 is None:
+                        acc.case((ckey, k, excname, k2), False, 'k2:%s:second-fault-point-not-reached' % cfg['ep'])
+                    else:
+                        acc.case((ckey, k, excname, k2), res != 'returned' and inj.dirty,
+                                 'k2:%s:%s:first-%s:%s' % (cfg['ep'], 'dirty' if inj.dirty else 'clean', 'swallowed' if res1 == 'returned' else 'propagating',
+                                                           'raised' if res != 'returned' else 'swallowed'))
+                    for sig, msg in bad:
+                        acc.violation(sig, {'cfg': cfg, 'k': k, 'exc': excname, 'k2': k2}, msg)
     finally:
         shutil.rmtree(d, ignore_errors=True)
     return acc
@@ -480,7 +530,7 @@ def replay(case):
     try:
         if case['k']:
             one_run(case['cfg'], None, 'InjectedFault', d)   # warm-up (lazy imports)
-        res, inj, bad = one_run(case['cfg'], case['k'] or None, case['exc'], d)
+        res, inj, bad = one_run(case['cfg'], case['k'] or None, case['exc'], d, k2=case.get('k2'))
         return bad
     finally:
         shutil.rmtree(d, ignore_errors=True)
